@@ -265,6 +265,23 @@ def run(ctx):
                 m = parse_model(mout[i])
                 if m != got:
                     ctx.disagree("model-vs-parse_server", {"input": s, "impl": list(got), "model": list(m)})
+        # the answer is a function of the string and of the file system NOW: parsing the same string again after a socket path
+        # has appeared or disappeared must follow the file system (no memory of earlier calls)
+        for k in range(ctx.n(4, 20)):
+            path = os.path.join(tmp, "later%d" % k)
+            seq = []
+            for step in ("absent", "present", "absent", "present"):
+                if step == "present":
+                    open(path, "w").close()
+                elif os.path.exists(path):
+                    os.remove(path)
+                for s_ in (path, path + ":2"):
+                    got, want = impl(s_), oracle(s_)
+                    seq.append((step, s_, got))
+                    ctx.count("reparse_cases")
+                    if got != want:
+                        ctx.violate("addr-grammar-reparse", {"input": {"string": s_, "history": [(a, b) for a, b, _ in seq]}, "impl": list(got), "spec": list(want),
+                                                             "how": "parse_server on the same string before and after the path comes into existence / disappears"})
         # the address reaches the connector unchanged: vncdo, api.connect and vnclog
         picked = [s_ for s_ in cases if oracle(s_)[0] == "ok"][:ctx.n(150, 1500)] + [s_ for s_ in cases if oracle(s_)[0] == "err"][:ctx.n(40, 400)]
         picked += [os.path.join(tmp, "sock"), os.path.join(tmp, "sock") + ":1", os.path.join(tmp, "sock") + "::5", "[::1]:2", "10.0.0.1::80", "example.org"]
